@@ -214,6 +214,51 @@ func plans(thorough bool) []worldPlan {
 	for _, log := range [][]string{{"msg", "del"}, {"msg", "web", "msg"}, {"msg", "enc", "del"}, {"cmsg", "cread"}, {"cmsg", "cread", "cmsg"}, {"cmsg", "cdel", "msg"}, {"cmsg@2", "cread@2"}, {"cmsg@2", "cmsg@2", "cread@2"}} {
 		add(log, depth-1, func(c *updsim.WorldCfg) { c.Containers = 3; c.Untracked = []int{2} })
 	}
+	// own operations learned from messages.affected* results (Manager.HandleAffected)
+	for _, log := range seqs([]string{"msg", "del", "aff"}, 2, commonLen-1) {
+		hasAff := false
+		for _, k := range log {
+			hasAff = hasAff || k == "aff"
+		}
+		if !hasAff {
+			continue
+		}
+		for _, sl := range []int{0, 1} {
+			sl := sl
+			add(log, depth, func(c *updsim.WorldCfg) { c.Server.Slice = sl })
+		}
+	}
+	for _, log := range [][]string{{"cmsg", "caff"}, {"caff", "cmsg"}, {"cmsg", "caff", "cmsg"}, {"cdel", "caff", "caff"}, {"msg", "aff", "cmsg", "caff"}} {
+		for _, sl := range []int{0, 1} {
+			sl := sl
+			add(log, depth, func(c *updsim.WorldCfg) { c.Server.ChanSlice = sl })
+		}
+	}
+	// short forms of new messages; messages from a sender whose access hash is unknown / learned
+	for _, log := range [][]string{{"msg"}, {"msg", "msg"}, {"msg", "del", "msg"}, {"msg", "msg", "del"}, {"msg", "enc", "msg"}} {
+		for _, env := range []string{"shortchat", "shortuser", "shortsent"} {
+			env := env
+			add(log, depth, func(c *updsim.WorldCfg) { c.Envelope = env })
+		}
+		for _, snd := range []string{"unknown", "learned"} {
+			snd := snd
+			add(log, depth, func(c *updsim.WorldCfg) { c.Server.Sender = snd })
+		}
+	}
+	add([]string{"msg", "edit", "del"}, depth, func(c *updsim.WorldCfg) { c.Server.Sender = "learned"; c.Server.Slice = 1 })
+	add([]string{"msg", "cmsg", "msg"}, depth-1, func(c *updsim.WorldCfg) { c.Server.Sender = "learned"; c.Containers = 2 })
+	// channels stored at the start whose access hash arrives with their first pushed envelope
+	for _, ch := range seqs([]string{"cmsg@2", "cdel@2"}, 1, chanLen) {
+		for _, sl := range []int{0, 1} {
+			if sl >= len(ch) && sl > 0 {
+				continue
+			}
+			sl := sl
+			add(ch, depth, func(c *updsim.WorldCfg) { c.LateHash = []int{2}; c.Server.ChanSlice = sl })
+		}
+	}
+	add([]string{"cmsg", "cmsg@2", "cdel@2"}, depth, func(c *updsim.WorldCfg) { c.LateHash = []int{2} })
+	add([]string{"cmsg@2", "cdel@2", "cmsg@2"}, depth-1, func(c *updsim.WorldCfg) { c.LateHash = []int{2}; c.Containers = 2 })
 	add([]string{"cmsg", "cedit"}, depth, nil)
 	add([]string{"cedit", "cmsg"}, depth, nil)
 	add([]string{"cmsg", "cdel"}, depth, func(c *updsim.WorldCfg) { c.Server.Seq = true })
@@ -242,7 +287,7 @@ func main() {
 			"The client starts in sync with an empty log, then BFS over all histories of at most D-1 events {push of any visible log entry (any order, any repetition, any omission), grow, main-loop timer => getDifference, channel timer => getChannelDifference}, states deduplicated by a canonical key of the real engine (boxes, queues, persisted state, delivery counts). " +
 			"From EVERY reachable state each of 3 recoveries is run (timers | updatesTooLong + updateChannelTooLong(pts) | updatePtsChanged + updateChannelTooLong without pts), followed by rounds of all timers until a round changes nothing (deterministic fixpoint). " +
 			"Also worlds with zero-count updates (web, cread, cweb: pts of the preceding entry, pts_count 0, carried in other_updates of every difference requested from a smaller pts), with envelopes carrying 2-3 entries in every order, and with channels unknown to the client at start. A zero-count entry is owed to the handler when a difference answer carried it or when a push of it arrived in order (all earlier entries of its sequence already pushed or served, no later one yet): a difference requested from its own pts cannot return it and the protocol tells clients to ignore it once the local pts is past it. " +
-			"Oracle: every (owed) log entry was handed to UpdateHandler.Handle at least once, identified by the message/deleted/max/random id it carries. A case = world + history + recovery; distinct = distinct cases; the root of each world is trivial.")
+			"Oracle: every (owed) log entry was handed to UpdateHandler.Handle at least once, identified by the message/deleted/max/random id it carries. A case = world + history + recovery; distinct = distinct cases; the root of each world is trivial. Audit additions: (a) log kinds aff / caff = own operations whose position the client learns from a messages.affected* result: pushing such an entry calls the affectedQueue arm (Manager.HandleAffected -> internalState.handleAffected / channelState.handleAffected) in any order with the pushes around it; nothing of it is owed to the handler, a position it covers counts as settled once the result was handed over, and a tracked position may move to its end; a difference from an earlier position returns it as updateReadHistoryOutbox / updateDeleteChannelMessages in other_updates. (b) envelope forms shortchat / shortuser / shortsent: a new message pushed as updateShortChatMessage (own message, peers known: conversion path), updateShortMessage (sender access hash unknown: envelope dropped, immediate getDifference) or updateShortSentMessage (delivered as updateNewMessage with messageEmpty). (c) Server.Sender unknown / learned: msg and edit carry from_id of a user whose access hash is unknown (every pushed envelope with such a message is dropped and answered by getDifference) or is learned from the users vector of the first difference. (d) LateHash worlds: a channel that is in the storage at position 0 but whose access hash is unknown at start-up (Manager.loadChannels skips it); its envelopes carry the full channel in chats, so the first push makes handleChannel create the worker from the STORED position (GetChannelPts found branch); every entry after the stored position is owed once a push was seen. (e) \"covered by a fetched difference\" is kept as position ranges: an answer to a request from a that sets state b covers (a, b], not the positions up to a.")
 		c.Assume("the select arms of internalState.Run / channelState.Run are transcribed 1:1 as step functions in the in-package accessor; queues are run to quiescence after every event (other interleavings, the sendOut drop path and real timers are left to the scheduler engine)")
 		c.Assume("fake server written from core.telegram.org/api/updates: new messages in new_messages, every other event in other_updates with its pts/qts, slices carry an intermediate state equal to the position after their last entry")
 		if p := os.Getenv("VERIF_CPUPROFILE"); p != "" {
